@@ -357,3 +357,40 @@ def module_global_writes(f: ast.AST, names: Set[str]) -> List[Tuple[ast.AST, str
                 and isinstance(n.func.value, ast.Name) and n.func.value.id in visible:
             out.append((n, n.func.value.id, "%s()" % n.func.attr))
     return out
+
+
+# ------------------------------------------------------------------------------------------------------------------
+# local memos:  if K not in D: D[K] = f(args)  - the key has to cover every argument that varies between the iterations
+# ------------------------------------------------------------------------------------------------------------------
+
+def memo_key_gaps(f: ast.AST) -> List[Tuple[ast.Assign, str, str, List[str]]]:
+    """[(store, table, key text, loop-variant argument names of the memoised call that the key does not mention)]"""
+    from . import match
+    out = []
+    for iff in source.walk_own(f):
+        if not isinstance(iff, ast.If):
+            continue
+        cp = match.compare_parts(iff.test)
+        if not (cp and isinstance(cp[1], ast.NotIn) and isinstance(cp[2], ast.Name)):
+            continue
+        table, key = cp[2].id, cp[0]
+        for st in iff.body:
+            if not (isinstance(st, ast.Assign) and len(st.targets) == 1 and isinstance(st.targets[0], ast.Subscript)
+                    and isinstance(st.targets[0].value, ast.Name) and st.targets[0].value.id == table
+                    and source.src(st.targets[0].slice) == source.src(key) and isinstance(st.value, ast.Call)):
+                continue
+            variant: Set[str] = set()
+            for lp in [a for a in source.ancestors(iff) if isinstance(a, (ast.For, ast.While))]:
+                if isinstance(lp, ast.For):
+                    variant |= {x.id for x in ast.walk(lp.target) if isinstance(x, ast.Name)}
+                for b in lp.body:
+                    for a in ast.walk(b):
+                        if isinstance(a, (ast.Assign, ast.AugAssign, ast.AnnAssign)):
+                            for t in (a.targets if isinstance(a, ast.Assign) else [a.target]):
+                                variant |= {x.id for x in ast.walk(t) if isinstance(x, ast.Name) and isinstance(x.ctx, ast.Store)}
+                        elif isinstance(a, ast.For):
+                            variant |= {x.id for x in ast.walk(a.target) if isinstance(x, ast.Name)}
+            args = {x.id for a in list(st.value.args) + [k.value for k in st.value.keywords] for x in ast.walk(a) if isinstance(x, ast.Name)}
+            knames = {x.id for x in ast.walk(key) if isinstance(x, ast.Name)}
+            out.append((st, table, source.src(key), sorted((args & variant) - knames - {table})))
+    return out
